@@ -1,13 +1,64 @@
 import Hms
+import Hms.Pos.Render
+import Hms.Pos.ImportGraph
 import Driver.Decode
-/-! Driver commands of the "Total" area. `dispatchTotal cmd payload` answers `some line` for the
-commands it owns and `none` otherwise. -/
+/-! Driver commands of the "Total" area (C05, C08). `dispatchTotal cmd payload` answers `some line`
+for the commands it owns and `none` otherwise.
+
+* `rendercheck (<code points>) sl sc si el ec ei` → `err=ok|panic diag=ok|panic pos=in|whole|bad ord=0|1`:
+  the verdict of the Lean transcriptions `renderErrOK` / `renderDiagOK` of the two Go renderers and the
+  span predicates of `Hms.Pos` on an arbitrary span (tie for `HmsProofs.C08.render_safe`).
+* `importcheck ((main a b) (a a) (b))` → `visited=a,b,main cyclic=<n>` | `FUEL`: the module-recursion
+  model on an import graph (module name followed by the modules it imports, entry module first).
+-/
 namespace Driver
-open Hms
+open Hms Hms.Pos
+
+def cmdRenderCheck (payload : String) : String :=
+  match Sexp.parse ("(" ++ payload ++ ")") with
+  | some (.list [srcS, a, b, c, d, e, f]) =>
+    match Sexp.asRunes? srcS, [a, b, c, d, e, f].mapM Sexp.asNat? with
+    | some src, some [sl, sc, si, el, ec, ei] =>
+      let sp : Span := ⟨⟨sl, sc, si⟩, ⟨el, ec, ei⟩⟩
+      let v (b : Bool) := if b then "ok" else "panic"
+      let pos := if decide (WholeFile sp) then "whole" else if decide (InText src sp) then "in" else "bad"
+      let ord := if decide (Ordered sp) then "1" else "0"
+      s!"err={v (renderErrOK src sp)} diag={v (renderDiagOK src sp)} pos={pos} ord={ord}"
+    | _, _ => "BAD-INPUT"
+  | _ => "BAD-INPUT"
+
+def atomName : Sexp → Option String
+  | .atom s => some s
+  | _ => none
+
+def insertSorted (x : String) : List String → List String
+  | [] => [x]
+  | y :: ys => if x < y then x :: y :: ys else y :: insertSorted x ys
+
+def cmdImportCheck (payload : String) : String :=
+  match Sexp.parse payload with
+  | some (.list mods) =>
+    match mods.mapM (fun m => m.items.mapM atomName) with
+    | some rows =>
+      let host : Imports.Host := rows.filterMap fun r =>
+        match r with
+        | n :: imps => some (n, imps)
+        | [] => none
+      match host with
+      | [] => "BAD-INPUT"
+      | (entry, _) :: _ =>
+        match Imports.analyze host entry with
+        | none => "FUEL"
+        | some st =>
+          let vis := st.visited.foldl (fun acc x => insertSorted x acc) []
+          s!"visited={",".intercalate vis} cyclic={st.cyclicAt.length}"
+    | none => "BAD-INPUT"
+  | _ => "BAD-INPUT"
 
 def dispatchTotal (cmd : String) (payload : String) : Option String :=
-  let _ := payload
   match cmd with
+  | "rendercheck" => some (cmdRenderCheck payload)
+  | "importcheck" => some (cmdImportCheck payload)
   | _ => none
 
 end Driver
